@@ -314,22 +314,8 @@ func (tp *TableParser) parseCellParagraph(p paragraphXML) parsedParagraph {
 		parsed.Alignment = resolved.Alignment
 	}
 
-	// Extract text
-	var textParts []string
-
-	// Direct text content
-	if p.Text != "" {
-		textParts = append(textParts, p.Text)
-	}
-
-	// Text from spans
-	for _, span := range p.Spans {
-		if span.Text != "" {
-			textParts = append(textParts, span.Text)
-		}
-	}
-
-	parsed.Text = strings.Join(textParts, "")
+	// Extract text in document order
+	parsed.Text = inlineText(p.Content)
 
 	return parsed
 }
